@@ -244,6 +244,10 @@ func init() {
 		err := &IfaceV{Tid: Ite(wok, Ite(srcFail, r.errT, IntConst(0)), werr.Tid), Ref: Ite(wok, Ite(srcFail, r.errR, IntConst(0)), werr.Ref)}
 		return one(st, written, err)
 	}
+	models["io/ioutil.ReadAll"] = func(e *Exec, st *State, fr *Frame, fn *ssa.Function, args []Value, pos token.Pos) []Outcome {
+		return e.readAllModel(st, fr, fn, args, pos)
+	}
+	models["io.ReadAll"] = models["io/ioutil.ReadAll"]
 	models["io.CopyN"] = func(e *Exec, st *State, fr *Frame, fn *ssa.Function, args []Value, pos token.Pos) []Outcome {
 		e.note("trusted: io.Copy / io.CopyN / io.ReadFull / encoding/binary.Read contracts over ghost byte streams (a stream delivers its bytes whatever the segmentation of the underlying reads)")
 		want := args[2].(*Term)
@@ -354,6 +358,15 @@ func init() {
 		want = Ite(BVSlt(want, BVConst(0, 64)), BVConst(0, 64), want)
 		_, _, n, err, _ := e.readN(st, ref, want, 1)
 		return one(st, n, err)
+	}
+	models["(*bufio.Reader).Buffered"] = func(e *Exec, st *State, fr *Frame, fn *ssa.Function, args []Value, pos token.Pos) []Outcome {
+		// some of the bytes still to come are already in the buffer: between 0 and min(what is left, buffer size)
+		ref := streamRef(args[0])
+		r := e.rd(st, ref)
+		n := Fresh("buffered", BV(64))
+		bs := e.ghGet(st, "rd.bufsize", BV(64), ref)
+		st.Assume(And(BVUle(n, BVSub(r.n, r.pos)), BVUle(n, bs)))
+		return one(st, n)
 	}
 	models["(*bufio.Reader).ReadByte"] = func(e *Exec, st *State, fr *Frame, fn *ssa.Function, args []Value, pos token.Pos) []Outcome {
 		src, soff, _, err, ok := e.readN(st, streamRef(args[0]), BVConst(1, 64), 1)
